@@ -148,6 +148,10 @@ impl SearchBed {
         // injected scheduling points in the node's sends (see simnet)
         net.set_send_yield(*[0.0, 0.0, 0.3, 1.0].choose(rng).unwrap());
         let dht = spawn_node(&net, &cfg);
+        // API calls racing the deliveries (callers on other threads), in a third of the beds
+        if rng.gen_bool(0.33) {
+            crate::world::api_hammer(&net, &dht, addr, seed, *[0.05, 0.3].choose(rng).unwrap(), 5_000);
+        }
         let bootstrapped = tokio::time::timeout(Duration::from_secs(300), dht.bootstrapped())
             .await
             .unwrap_or(false);
